@@ -236,6 +236,36 @@ def _tree_edits(t, ops):
             yield (op, left, r2)
 
 
+def inplace_edits(model):
+    """(kind, function mutating a real model in place, expected shadow afterwards)."""
+    out = []
+    if model[1]:
+        cn, t = model[1][0]
+        t2 = next(_tree_edits(t, sh.BINARY_LOGICAL))
+        em = (model[0], ((cn, t2),) + model[1][1:])
+
+        def set_ast(fm, t2=t2):
+            from flamapy.core.models.ast import AST
+            fm.ctcs[0].ast = AST(bd.node(t2))
+        out.append(('ctc-ast', set_ast, em))
+    rels = sh.relations(model)
+    if rels:
+        p, a, b, ks = rels[0]
+
+        def set_card(fm):
+            fm.get_relations()[0].card_max = b + 1
+        root = model[0]
+        path0 = next(path for path, f in sh._paths(root) if f[1])
+        em = (sh._replace_feature(root, list(path0), lambda g: (g[0], ((g[1][0][0], g[1][0][1] + 1, g[1][0][2]),) + g[1][1:], g[2], g[3], g[4], g[5])), model[1])
+        out.append(('card', set_card, em))
+    last = sh.names(model)[-1]
+    if not any(last in sh.tree_names(t) for _n, t in model[1]):
+        def ren(fm):
+            next(f for f in fm.get_features() if f.name == last).name = 'Qx'
+        out.append(('rename', ren, _rename(model, last, 'Qx', False)))
+    return out
+
+
 # ----------------------------------------------------------------------------- oracle
 
 def _eq_contract(a, b, what, out, expect_equal):
@@ -327,6 +357,29 @@ def check(case):
             if f.clause not in seen_clauses:
                 seen_clauses.add(f.clause)
                 f.detail = {'edit': sh.model_str(em), 'info': f.detail}
+                out.append(f)
+    # in-place edits of an object that has already been compared and hashed (stale caches)
+    for (ekind, apply_edit, em) in inplace_edits(model):
+        fm_e = bd.build(model)
+        try:
+            hash(fm_e)
+            _warm = (fm_e == fm, [hash(c) for c in fm_e.get_constraints()], [c == c for c in fm_e.get_constraints()],
+                     sorted(fm_e.get_constraints()), [hash(r) for r in fm_e.get_relations()])
+            apply_edit(fm_e)
+            engine.tick(3)
+        except Exception as exc:  # noqa: BLE001
+            out.append(Fail('inplace-edit-raises:%s' % type(exc).__name__, {'edit': ekind, 'msg': str(exc)[:150]}))
+            continue
+        if bd.observe(fm_e) != em:
+            raise AssertionError('in-place edit %s did not produce the expected model' % ekind)
+        sub = []
+        _eq_contract(fm_e, bd.build(em), 'model', sub, True)
+        _eq_contract(fm_e, fm, 'model', sub, False)
+        for f in sub:
+            f.clause = f.clause + ':after-inplace-' + ekind
+            if f.clause not in seen_clauses:
+                seen_clauses.add(f.clause)
+                f.detail = {'edited': sh.model_str(em)}
                 out.append(f)
     # element level inequalities
     fl = list(feats.values())
